@@ -247,7 +247,8 @@ def step (line : String) : String :=
     | "CHECKOVERLAP" =>
       if checkOverlap (pRowT (kv.get "A")) (pRowT (kv.get "B")) (kv.int "diff") then "1" else "0"
     | "JOINROWS" =>
-      exc (joinRows (pParams kv) (pRowT (kv.get "A")) (pRowT (kv.get "B"))) showRow
+      exc (joinRows (pParams kv) (pRowT (kv.get "A")) (pRowT (kv.get "B"))) fun r =>
+        match r with | some row => showRow row | none => "None"
     | "RESOLVEROWS" =>
       exc (resolveRows (pParams kv) (kv.int "diff") (pRows (kv.get "ROWS"))) fun (j, s) =>
         s!"J={showRows j} S={showRows s}"
